@@ -206,7 +206,9 @@ def check_case(case):
     off, step = case["index"]
     df.index = np.arange(len(df)) * step + off
     cnarr = CopyNumArray(df, {"sample_id": "s"})
-    segarr = CopyNumArray(pd.DataFrame(segs), {"sample_id": "s"})
+    from vk import gen
+
+    segarr = CopyNumArray(gen.relabel(pd.DataFrame(segs), gen.spec_for(case, "seg")), {"sample_id": "s"})
     before_bins, before_segs = cnarr.data.copy(), segarr.data.copy()
 
     def run():
